@@ -101,6 +101,7 @@ type ChanInv struct {
 }
 
 type ContractSet struct {
+	Mailboxes map[string]bool // struct fields (pkg.Type.field) holding a capacity-1 channel used by one goroutine at a time
 	ChanInvs map[string]*ChanInv
 	Ghosts  map[string]*GhostField
 	Funcs   map[string]*Contract
@@ -110,7 +111,7 @@ type ContractSet struct {
 }
 
 func NewContractSet() *ContractSet {
-	return &ContractSet{Funcs: map[string]*Contract{}, Specs: map[string]*SpecFunc{}, Ghosts: map[string]*GhostField{}, ChanInvs: map[string]*ChanInv{}}
+	return &ContractSet{Funcs: map[string]*Contract{}, Specs: map[string]*SpecFunc{}, Ghosts: map[string]*GhostField{}, ChanInvs: map[string]*ChanInv{}, Mailboxes: map[string]bool{}}
 }
 
 var reSpecLine = regexp.MustCompile(`^\s*//\s?@ ?(.*)$`)
@@ -278,6 +279,12 @@ func (cs *ContractSet) ParseContractFile(path, pkgPath string, trusted bool) err
 			lastSpec = sf
 			specBody = &strings.Builder{}
 			specBody.WriteString(bodyTxt)
+		case head == "mailbox":
+			if err := flushAll(); err != nil {
+				return err
+			}
+			cur = nil
+			cs.Mailboxes[pkgPath+"."+strings.TrimSpace(rest)] = true
 		case head == "chaninv":
 			if err := flushAll(); err != nil {
 				return err
